@@ -770,7 +770,7 @@ def c12_model(case, log):
 def check_c12(case, log, oc, labels):
     H, V, ops = c12_model(case, log)
     near = False
-    # known defect (known/C12.json): a 0-byte communication whose latency ends exactly at a deadline times out although it completes then;
+    # known defect (known_findings.json (C12)): a 0-byte communication whose latency ends exactly at a deadline times out although it completes then;
     # when that wait is a wait_for_or_cancel the communication is moreover cancelled: the rest of what happens to it is a consequence
     tainted = set()
     for r in ops:
